@@ -45,7 +45,9 @@ func buildPatchExpiredSelectionPredicate(sw swamp.Swamp, filters *hydrapb.Filter
 	if verifhook.Enabled {
 		verifhook.Trace("claims.pred", "op", "patchexpired", "mode", int(plan.Mode), "cand", candidates)
 	}
-	residual := plan.Residual
+	// evaluate the whole filter (indexed leg included) on the live record under the beacon lock: the
+	// candidate set was computed before the lock and is only a fast reject
+	residual := filters
 
 	return func(t treasure.Treasure) bool {
 		if _, in := set[t.GetKey()]; !in {
